@@ -103,6 +103,36 @@ def crate_index(rel):
         _CRATES[crate_dir] = CrateIndex(crate_dir)
     return _CRATES[crate_dir]
 
+def crate_normal_files(crate_dir):
+    """{rel: text} of the non-test source of a crate in the normal form (comments stripped, tests dropped, constants inlined)"""
+    idx = crate_index(crate_dir + "/src/lib.rs")
+    res = {}
+    for rel, text in idx.files.items():
+        lit, ints = idx.consts_for(rel, text)
+        res[rel] = rsnorm.inline_consts(text, lit, ints)
+    if not res:
+        raise Missing("crate:" + crate_dir)
+    return res
+
+def write_sequences(facts):
+    """C12: the ordered durable write steps of every mdk-core entry point, per case and path (tools/writeseq.py)"""
+    import writeseq
+    try:
+        table = writeseq.write_sequences(crate_normal_files("crates/mdk-core"), crate_normal_files("crates/mdk-storage-traits"))
+    except writeseq.Fail as e:
+        # the broken tie belongs to C12 alone: the other properties' facts are still emitted; with an empty table the theorems
+        # of Props/C12.lean over the table stop checking, and vlib/c12core.py reports `tie:gen:writeseq` with this message
+        facts["writeSeq"] = ("List (Nat × List (List Nat))", "[]", "tools/writeseq.py FAILED: tie:gen:writeseq:" + str(e).replace("-/", "- /"))
+        facts["writeSeqStatus"] = ("List Nat", "[0]", "tie:gen:writeseq:" + str(e).replace("-/", "- /"))
+        print("tie:gen:writeseq:" + str(e), file=sys.stderr)
+        return {}
+    facts["writeSeqStatus"] = ("List Nat", "[1]", "tools/writeseq.py translated every case")
+    val = "[" + ", ".join(f"({c}, [" + ", ".join("[" + ", ".join(map(str, p)) + "]" for p in paths) + "])" for c, (_n, paths) in sorted(table.items())) + "]"
+    prov = "mdk-core: ordered durable write steps per entry point / case / success path (tools/writeseq.py; step codes there): " + \
+           "; ".join(f"{c}={n}: " + " | ".join(",".join(writeseq.step_name(x) for x in p) or "-" for p in paths) for c, (n, paths) in sorted(table.items()))
+    facts["writeSeq"] = ("List (Nat × List (List Nat))", val, prov)
+    return table
+
 _BOUNDARY = None
 def boundary():
     """the function names the extractors know: every identifier that occurs in a string literal of this file, of
@@ -1343,6 +1373,9 @@ def main():
     ffi_prefixes["imghash"], ffi_prefixes["imgkey"], ffi_prefixes["imgnonce"] = dgi_p
     ffi_prefixes["json_ctx"] = {v: k for k, v in JSON_CTX.items()}
     ffi_prefixes["exported"] = exported
+
+    # ---- C12: ordered durable write steps of every mdk-core entry point (tools/writeseq.py) ----
+    write_sequences(facts)
 
     # ---- emit -------------------------------------------------------------------------------
     lines = ["/- GENERATED by tools/gen_model.py from the current /repo source — do not edit. -/",
